@@ -1207,6 +1207,11 @@ func (l *Ledger) VerifyBlock(block *pb.InternalBlock, logid string) (bool, error
 		l.xlog.Warn("VerifyBlock get ecdsa from block error", "logid", logid, "error", err)
 		return false, nil
 	}
+	// elliptic.Marshal (address derivation) panics on a key that is not a point of its curve
+	if k.X == nil || k.Y == nil || !k.Curve.IsOnCurve(k.X, k.Y) {
+		l.xlog.Warn("VerifyBlock public key is not on its curve", "logid", logid)
+		return false, nil
+	}
 	chkResult, _ := l.cryptoClient.VerifyAddressUsingPublicKey(string(block.Proposer), k)
 	if chkResult == false {
 		l.xlog.Warn("VerifyBlock address is not match publickey", "logid", logid)
